@@ -454,6 +454,7 @@ def _thread_constant_flags(g):
     continues on the edge the constant selects.  The program is unchanged; the paths `flag = 0` / `flag is true` that the
     flow-insensitive rules would otherwise follow do not exist."""
     from .facts import strip_casts as sc, const_val as cv
+    changed = False
     for a in g.nodes:
         if a.kind != 'stmt' or a.expr is None:
             continue
@@ -462,6 +463,13 @@ def _thread_constant_flags(g):
             continue
         l = sc(e['l'])
         c = cv(e['r'])
+        if c is None:
+            r0 = sc(e['r'])
+            if e['r'].get('null') or r0.get('null'):
+                c = 0
+            elif r0.get('k') == 'str' or (r0.get('k') == 'un' and r0.get('op') == '&') or \
+                    (r0.get('k') == 'ref' and r0.get('dk') == 'local' and g.fn.unit.ty(r0.get('ty0', r0['ty']))['c'] == 'array'):
+                c = 1       # the address of an object is not NULL
         if l.get('k') != 'ref' or l.get('dk') != 'local' or c is None or len(g.succ[a.id]) != 1:
             continue
         cur = g.succ[a.id][0][0]
@@ -478,8 +486,12 @@ def _thread_constant_flags(g):
             want_true = (c != 0)
         elif be.get('k') == 'bin' and be.get('op') in ('==', '!='):
             x, y = sc(be['l']), sc(be['r'])
-            k0 = cv(be['r']) if x.get('k') == 'ref' and x.get('d') == l.get('d') else (cv(be['l']) if y.get('k') == 'ref' and y.get('d') == l.get('d') else None)
-            if k0 is not None:
+            def kv(n_):
+                return 0 if (n_.get('null') or sc(n_).get('null')) else cv(n_)
+            k0 = kv(be['r']) if x.get('k') == 'ref' and x.get('d') == l.get('d') else (kv(be['l']) if y.get('k') == 'ref' and y.get('d') == l.get('d') else None)
+            if k0 == 0:
+                want_true = ((c == 0) == (be['op'] == '=='))
+            elif k0 is not None and cv(e['r']) is not None:
                 want_true = ((c == k0) == (be['op'] == '=='))
         if want_true is None:
             continue
@@ -490,3 +502,17 @@ def _thread_constant_flags(g):
         g.succ[a.id] = [(targets[0][0], None)]
         g.pred[old[0]] = [(p_, lab) for (p_, lab) in g.pred[old[0]] if p_ != a.id]
         g.pred[targets[0][0]].append((a.id, None))
+        changed = True
+    if changed:
+        # what can no longer be reached (the test of a flag every definition of which went straight to its edge) is not code
+        live = g.reachable(g.entry.id) | {g.entry.id, g.exit.id}
+        for n in g.nodes:
+            if n.id in live:
+                continue
+            for (y, _lab) in g.succ[n.id]:
+                g.pred[y] = [(p_, lab) for (p_, lab) in g.pred[y] if p_ != n.id]
+            g.succ[n.id] = []
+            g.pred[n.id] = []
+            n.kind = 'nop'
+            n.name = 'dead'
+            n.expr = None
